@@ -34,15 +34,33 @@ def register(reg):
                  ensures=['batch.g_ops == store(old(batch.g_ops), b"state", ' + REC + ')'],
                  trusted='A-CALLEE: DB.write_utxo_state(batch) puts repr() of the state fields under b"state" into the batch it is '
                          'given (T-STR: repr/encode of a dict is a function of its values)')
-    reg.contract(DBK + '.flush_undo_infos', params={'batch_put': Callable(BATCH + '.put'), 'undo_infos': UNDO}, raises={},
-                 assumes_inv=False, maintains_inv=False,
-                 trusted='A-CALLEE: DB.flush_undo_infos only calls the batch_put it is given (its effect on the batch is havocked at '
-                         'the call site)')
+    # flush_undo_infos(batch_put, undo_infos): batch_put is the bound `put` of the batch gb (ghost parameter: the caller names the
+    # batch); every (undo_info, height) pair is put under b'U' + be32(height), nothing else is touched (C15, C03)
+    reg.contract(
+        DBK + '.flush_undo_infos', params={'batch_put': Callable(BATCH + '.put', bind='gb'), 'undo_infos': UNDO},
+        ghost_params={'gb': Obj(BATCH)},
+        requires=[('heights', 'forall(lambda j=Int: implies(0 <= j and j < len(undo_infos), 0 <= undo_infos[j][1] and undo_infos[j][1] < 4294967296))')],
+        raises={}, assumes_inv=False, maintains_inv=False, modifies=['gb.g_ops'],
+        ensures=[('every-block-gets-its-undo-row', 'forall(lambda j=Int: implies(0 <= j and j < len(undo_infos), '
+                                                   'concat(b"U", beu_enc(undo_infos[j][1], 4)) in gb.g_ops))'),
+                 ('only-undo-rows', 'forall(lambda k=Bytes: implies(not (exists(lambda j=Int: 0 <= j and j < len(undo_infos) and '
+                                    'k == concat(b"U", beu_enc(undo_infos[j][1], 4)))), (k in gb.g_ops) == (k in old(gb.g_ops)) and '
+                                    'implies(k in gb.g_ops, lookup(gb.g_ops, k) == lookup(old(gb.g_ops), k))))')],
+        loops={0: LoopSpec('for undo_info, height in undo_infos',
+                           invariants=[('done', 'forall(lambda j=Int: implies(0 <= j and j < _i, concat(b"U", beu_enc(undo_infos[j][1], 4)) in gb.g_ops))'),
+                                       ('only', 'forall(lambda k=Bytes: implies(not (exists(lambda j=Int: 0 <= j and j < _i and '
+                                                'k == concat(b"U", beu_enc(undo_infos[j][1], 4)))), (k in gb.g_ops) == (k in old(gb.g_ops)) and '
+                                                'implies(k in gb.g_ops, lookup(gb.g_ops, k) == lookup(old(gb.g_ops), k))))')],
+                           modifies=['gb.g_ops'])},
+        portfolio=True, props=['C15', 'C04'])
     reg.contract(
         DBK + '.flush_utxo_db', params={'flush_data': Obj(FD)}, raises={}, assumes_inv=False, maintains_inv=False,
+        requires=[('undo-heights', 'forall(lambda j=Int: implies(0 <= j and j < len(flush_data.undo_infos), '
+                                   '0 <= flush_data.undo_infos[j][1] and flush_data.undo_infos[j][1] < 4294967296))')],
         modifies=['self.utxo_db.g_map', 'self.utxo_db.g_commits', 'self.state', 'flush_data.adds', 'flush_data.deletes',
                   'flush_data.undo_infos'],
-        ghost={('after', 'self.flush_undo_infos(batch_put, flush_data.undo_infos)'): ['havoc(batch.g_ops)']},
+        ghost={('before', 'self.flush_undo_infos(batch_put, flush_data.undo_infos)'): ['gb = batch']},
+        locals={'gb': Obj(BATCH)},
         ensures=[('one-atomic-commit', 'self.utxo_db.g_commits == old(self.utxo_db.g_commits) + 1'),
                  ('history-db-untouched', 'self.history.db.g_commits == old(self.history.db.g_commits) and '
                                           'self.history.db.g_map == old(self.history.db.g_map)'),
